@@ -71,6 +71,7 @@ func (p *packageParse) unpack(data []byte) (msgs []*Message, err error) {
 			return count == 2
 		})
 		if index == len(data)-1 {
+			data = bytes.Clone(data) // 读缓冲区会被下一次读取覆盖 消息需要持有自己的数据
 			jtMsg := jt808.NewJTMessage()
 			if err := jtMsg.Decode(data); err != nil {
 				return nil, fmt.Errorf("%w [%x]", err, data)
@@ -93,7 +94,7 @@ func (p *packageParse) unpack(data []byte) (msgs []*Message, err error) {
 		if end == -1 {
 			break
 		}
-		originalData := p.historyData[:end]
+		originalData := bytes.Clone(p.historyData[:end]) // historyData后续会被覆盖 消息需要持有自己的数据
 		jtMsg := jt808.NewJTMessage()
 		if err := jtMsg.Decode(originalData); err != nil {
 			p.historyData = p.historyData[end:]
